@@ -11,7 +11,7 @@ name: safe_strncat
 define: U_TERM
 src: strings.c
 enforce: spiftool_safe_strncat
-backend: cadical
+backend: sat
 loops: 1
 funcs: spiftool_safe_strncpy
 */
@@ -35,20 +35,26 @@ unsigned long w_size, w_n1, w_n2;
 #ifdef U_TERM
 /* L = vg_n2 = exact length of the text in dest (ghost-instantiated at vg_j2), n = vg_n1 = exact length
  * of src (instantiated at vg_j); room = size - 1 - L; A = min(n, room) characters are appended. */
-#define ROOM ((size_t) size - 1 - vg_n2)
+/* The clauses are stated with L = vg_len_ret, the value the strnlen model returned, plus the lemma
+ * "VLEN_GUARD(vg_n2) implies vg_len_ret == vg_n2" (first ensures): together they are the statement for
+ * the true length vg_n2 (proving them jointly in the vg_n2 form takes minisat 3 minutes, this form 20 s). */
+#define VL   vg_len_ret
+#define ROOM ((size_t) size - 1 - VL)
 #define NAPP VMIN(vg_n1, ROOM)
 spif_bool_t spiftool_safe_strncat(spif_charptr_t dest, const spif_charptr_t src, spif_int32_t size)
 __CPROVER_requires(size > 0 && __CPROVER_is_fresh(dest, (size_t) size))
 __CPROVER_requires(vg_n2 < (size_t) size && dest[vg_n2] == 0 && (!(vg_j2 < vg_n2) || dest[vg_j2] != 0))
 __CPROVER_requires(VCSTR_EXACT_AT(src, vg_n1, vg_j))
 __CPROVER_assigns(__CPROVER_object_whole(dest), vg_exit, vg_len_ret)
+__CPROVER_ensures(!VLEN_GUARD(vg_n2) || VL == vg_n2)
+__CPROVER_ensures(VL <= (size_t) size)
 /* terminated at L + A */
-__CPROVER_ensures(!VLEN_GUARD(vg_n2) || vg_exit != vg_j || dest[vg_n2 + NAPP] == 0)
+__CPROVER_ensures(!(VL < (size_t) size) || vg_exit != vg_j || dest[VL + NAPP] == 0)
 /* old text kept (vg_k2 < L), appended text = prefix of src (vg_k < A) */
-__CPROVER_ensures(!VLEN_GUARD(vg_n2) || !(vg_k2 < vg_n2) || dest[vg_k2] == __CPROVER_old(dest[vg_k2]))
-__CPROVER_ensures(!VLEN_GUARD(vg_n2) || vg_exit != vg_j || !(vg_k < NAPP) || dest[vg_n2 + vg_k] == src[vg_k])
+__CPROVER_ensures(!(vg_k2 < VL) || dest[vg_k2] == __CPROVER_old(dest[vg_k2]))
+__CPROVER_ensures(!(VL < (size_t) size) || vg_exit != vg_j || !(vg_k < NAPP) || dest[VL + vg_k] == src[vg_k])
 /* TRUE iff nothing cut */
-__CPROVER_ensures(!VLEN_GUARD(vg_n2) || vg_exit != vg_j || (__CPROVER_return_value == TRUE) == (vg_n1 <= ROOM))
+__CPROVER_ensures(!(VL < (size_t) size) || vg_exit != vg_j || (__CPROVER_return_value == TRUE) == (vg_n1 <= ROOM))
 __CPROVER_ensures(__CPROVER_return_value == TRUE || __CPROVER_return_value == FALSE)
 ;
 void harness(void)
